@@ -761,7 +761,10 @@ func (g *lgen) longSource() Source {
 		g.drawn = append(g.drawn, name)
 		listed = append(listed, name)
 		var e Source = &SrcAccount{E: g.accountExpr(name)}
-		if mayCap && g.r.Chance(1, 4) {
+		if g.pct(g.cfg.POverdraft / 3) {
+			// now and then an entry with a bounded overdraft
+			e = &SrcOverdraft{Addr: g.accountExpr(name), Bounded: g.freeMonetary(g.asset)}
+		} else if mayCap && g.r.Chance(1, 4) {
 			cap, _ := g.monetaryExpr(g.asset, big.NewInt(int64(g.r.Intn(12))), false)
 			e = &SrcCapped{Cap: cap, From: e}
 		}
